@@ -80,6 +80,24 @@ func loadMeta(prop, tier string) propMeta {
 
 func (ev *evidence) write(env *Env) {
 	meta := loadMeta(ev.prop, ev.tier)
+	if meta.Assumptions == nil {
+		meta.Assumptions = []string{}
+	}
+	if meta.Stubs == nil {
+		meta.Stubs = []string{}
+	}
+	if meta.OutsideClaim == nil {
+		meta.OutsideClaim = []string{}
+	}
+	if meta.Bounds == nil {
+		meta.Bounds = map[string]interface{}{}
+	}
+	if ev.inconclusive == nil {
+		ev.inconclusive = []string{}
+	}
+	if ev.knownHit == nil {
+		ev.knownHit = []string{}
+	}
 	fnames := make([]string, 0, len(ev.funcs))
 	for f := range ev.funcs {
 		fnames = append(fnames, f)
